@@ -22,9 +22,10 @@ import (
 )
 
 type input struct {
-	Label string `json:"label"`
-	Kind  string `json:"kind"`
-	Value string `json:"value"`
+	Label string   `json:"label"`
+	Kind  string   `json:"kind"`
+	Value string   `json:"value"`
+	Args  []string `json:"args,omitempty"`
 }
 
 type replayFile struct {
@@ -305,9 +306,42 @@ func Param(name string) int {
 
 // MemoBool/MemoFloat/MemoInt: answers of an arbitrary (uninterpreted) function
 // of the arguments: equal arguments get equal answers.
-func MemoBool(label string, args ...float64) bool   { return next(label, "bool") == "true" }
-func MemoFloat(label string, args ...float64) float64 { return parseF(next(label, "f64")) }
-func MemoInt(label string, args ...float64) int     { return int(parseI(next(label, "int"))) }
+func MemoBool(label string, args ...float64) bool   { return memo(label, "bool", args) == "true" }
+func MemoFloat(label string, args ...float64) float64 { return parseF(memo(label, "f64", args)) }
+func MemoInt(label string, args ...float64) int     { return int(parseI(memo(label, "int", args))) }
+
+// memo looks the answer up by argument values (the replay vector records the
+// arguments each answer belongs to), so that the order of calls - which
+// differs between the engine and a native run with goroutines or
+// short-circuits - does not matter. Answers for arguments the model did not
+// mention fall back to the next unused entry with the label.
+func memo(label, kind string, args []float64) string {
+	nextMu.Lock()
+	if st.loaded {
+		for _, in := range st.rf.Inputs {
+			if in.Label != label || len(in.Args) != len(args) {
+				continue
+			}
+			same := true
+			for i, a := range in.Args {
+				v := parseF(a)
+				if st.rf.RealMode {
+					if !(math.Abs(v-args[i]) <= 1e-9*(1+math.Abs(v))) {
+						same = false
+					}
+				} else if math.Float64bits(v) != math.Float64bits(args[i]) && !(v == 0 && args[i] == 0) {
+					same = false
+				}
+			}
+			if same {
+				nextMu.Unlock()
+				return in.Value
+			}
+		}
+	}
+	nextMu.Unlock()
+	return next(label, kind)
+}
 
 // NondetMapOrder makes `range` over maps inside the named function explore
 // every iteration order (symbolic engine only).
